@@ -391,6 +391,12 @@ reg(Contract('dd.bdd.BDD._init_terminal', [('self', 'mgr'), ('level', 'int')], p
              note='verified for the call from add_var (terminal present); the call from __init__ (empty tables) is bounded'))
 
 
+reg(Contract('dd.bdd.BDD.__len__', [('self', 'mgr')], pre=lambda c: [], post=lambda c: [('number-of-stored-nodes', c.r == c.S0.nsucc)], ret='int',
+             note='nsucc is the ghost cardinality of the node table: +1 at every store of a new key, -1 at every removal (engine rules)'))
+reg(Contract('dd.bdd.BDD.__contains__', [('self', 'mgr'), ('u', 'int')], pre=lambda c: [],
+             post=lambda c: [('membership', c.r == c.S0.dom[absz(c.a.u)])], ret='bool'))
+
+
 def empty_tables(S):
     return And(ForAll([x_], Not(S.dom[x_]), patterns=[S.dom[x_]]), ForAll([M._t], Not(S.ph[M._t]), patterns=[S.ph[M._t]]),
                ForAll([M._t], Not(S.ch[M._t]), patterns=[S.ch[M._t]]), S.nsucc == 0, S.nvars == 0, S.minfree == 2,
